@@ -13,9 +13,24 @@ import netgen
 
 
 def build_dense(rng, depth=3, unnamed_rate=0.1, wire_rate=0.85, passthrough_rate=0.3, top_as_child=False,
-                unreferenced_child=False):
+                unreferenced_child=False, outside_library=False, second_netlist=False):
+    """unreferenced_child: instances without a reference sit in the top cell and in some cells further down;
+    outside_library: some instantiated cells are in no library (created on their own and never added, or taken out
+    of their library after the design is built); second_netlist: another netlist whose top cell instantiates cells
+    of the first one (elements of those cells then occur below two top instances)"""
     b = netgen.Builder()
-    info = {'defs': {}, 'layers': [], 'ports': {}, 'cables': {}, 'children': {}}
+    info = {'defs': {}, 'layers': [], 'ports': {}, 'cables': {}, 'children': {}, 'lib_of': {}, 'outside': []}
+    from ir_world import tok_of_s as _tok
+
+    def new_definition(lib, name, may_be_homeless=True):
+        if outside_library and may_be_homeless and rng.random() < 0.3:
+            d = b._alloc('definition')          # sdn.Definition(): in no library, ever
+            b.ops.append(['new', 'definition', _tok(name), '0'])
+            info['outside'].append(d)
+            return d
+        d = b.definition(lib, name)
+        info['lib_of'][d] = lib
+        return d
 
     def nm(prefix, k):
         if rng.random() < unnamed_rate:
@@ -31,7 +46,7 @@ def build_dense(rng, depth=3, unnamed_rate=0.1, wire_rate=0.85, passthrough_rate
 
     layer0 = []
     for k in range(rng.randint(1, 3)):
-        d = b.definition(libs[0], 'LEAF%d' % k)
+        d = new_definition(libs[0], 'LEAF%d' % k)
         ports = []
         for j in range(rng.randint(1, 3)):
             width = rng.choice([1, 1, 1, 2, 3])
@@ -69,7 +84,7 @@ def build_dense(rng, depth=3, unnamed_rate=0.1, wire_rate=0.85, passthrough_rate
         this = []
         count = 1 if layer == depth else rng.randint(1, 2)
         for _ in range(count):
-            d = b.definition(rng.choice(libs), 'M%d_%d' % (layer, k_def))
+            d = new_definition(rng.choice(libs), 'M%d_%d' % (layer, k_def), may_be_homeless=(layer != depth or rng.random() < 0.1))
             k_def += 1
             ports = []
             for j in range(rng.randint(0 if layer == depth else 1, 3)):
@@ -84,7 +99,7 @@ def build_dense(rng, depth=3, unnamed_rate=0.1, wire_rate=0.85, passthrough_rate
                 ref = rng.choice(pool)
                 x = b.child(d, nm('u', j), ref)
                 kids.append((x, ref))
-            if unreferenced_child and layer == depth:
+            if unreferenced_child and (layer == depth or rng.random() < 0.4):
                 b.child(d, nm('z', 0), None)   # an instance without a reference (black hole)
             inner = [pin for _, pins in ports for pin in pins]
             outer = [(x, pin) for x, ref in kids for _, pins in info['ports'][ref] for pin in pins]
@@ -144,6 +159,23 @@ def build_dense(rng, depth=3, unnamed_rate=0.1, wire_rate=0.85, passthrough_rate
             b.name(t, 'top')
     info['top'] = t
     info['all_defs'] = lower_defs
+    if outside_library:
+        # ... and one or two cells leave their library after the design is built (rarely the top cell: then no
+        # reference at all is valid)
+        housed = [d for d in lower_defs if d in info['lib_of'] and (d != top_def or rng.random() < 0.1)]
+        for d in rng.sample(housed, min(len(housed), rng.randint(1, 2))):
+            b.ops.append(['remove', 'defs', str(info['lib_of'].pop(d)), str(d)])
+            info['outside'].append(d)
+    if second_netlist:
+        n2 = b.netlist('net2')
+        l2 = b.library(n2, 'work2')
+        d2 = b.definition(l2, 'TOP2')
+        for j in range(rng.randint(1, 3)):
+            b.child(d2, nm('x', j), rng.choice(lower_defs))
+        if unreferenced_child and rng.random() < 0.5:
+            b.child(d2, nm('z', 9), None)
+        t2 = b.top_from_definition(n2, d2)
+        info['netlist2'] = n2
     info['next'] = b.next
     return b.ops, info
 
@@ -154,13 +186,19 @@ def build(rng, kind=None, depth=None):
     depth = depth or rng.choice([1, 2, 2, 3, 3, 3, 4])
     if kind == 'dense':
         tac = rng.random() < 0.08
-        unref = rng.random() < 0.05
+        unref = rng.random() < 0.2
+        homeless = rng.random() < 0.2
+        second = rng.random() < 0.1
         ops, info = build_dense(rng, depth=depth, unnamed_rate=rng.choice([0.0, 0.1, 0.4]), top_as_child=tac,
-                                unreferenced_child=unref)
+                                unreferenced_child=unref, outside_library=homeless, second_netlist=second)
         if tac:
             kind = 'dense+top-as-child'
         if unref:
             kind += '+unreferenced-instance'
+        if homeless:
+            kind += '+cell-outside-library'
+        if second:
+            kind += '+second-netlist'
     else:
         ops, info = netgen.build(rng, depth=depth, unnamed_rate=rng.choice([0.0, 0.2]))
         info['next'] = None
@@ -193,7 +231,7 @@ def edits(rng, w, info, k=3):
                 out.append(['create', 'children', str(idx(rng.choice(hosts))), tok_of_s('g%d' % rng.randint(0, 99)), '0', '0', str(idx(P))])
     for _ in range(k):
         kind = rng.choice(['rmchild', 'rmchild', 'setref', 'setref', 'rmport', 'rmcable', 'rmwire', 'rmpin',
-                           'unref', 'settop', 'rename', 'addchild', 'addchild', 'badsetref', 'badsetref'])
+                           'unref', 'unref', 'rmdef', 'settop', 'rename', 'addchild', 'addchild', 'badsetref', 'badsetref'])
         d = w.objs[rng.choice(defs)]
         if kind == 'rmchild' and d.children:
             c = rng.choice(list(d.children))
@@ -221,6 +259,10 @@ def edits(rng, w, info, k=3):
             cands = [c for i in defs for c in w.objs[i].children]
             if cands:
                 out.append(['setref', str(idx(rng.choice(cands))), '~'])
+        elif kind == 'rmdef':
+            # the cell leaves its library (it stays instantiated): its elements keep their occurrences
+            if d.library is not None:
+                out.append(['remove', 'defs', str(idx(d.library)), str(idx(d))])
         elif kind == 'rmport' and d.ports:
             out.append(['remove', 'ports', str(idx(d)), str(idx(rng.choice(list(d.ports))))])
         elif kind == 'rmcable' and d.cables:
